@@ -22,6 +22,18 @@ import socket
 from ..core import hx, unhx, parallel_map, sha, BUILD
 
 DRIVERS = ["drv_ansi"]
+_SEEN = {}
+
+
+def report(rep, signature, what, replay):
+    """rep.violation, at most 3 times per signature (core keeps only the first 50 violations of a run:
+    one noisy signature must not crowd out the others)."""
+    n = _SEEN.get(signature, 0)
+    _SEEN[signature] = n + 1
+    if n < 3:
+        rep.violation(signature, what, replay)
+
+
 GENERATED = ["VteTable", "AnsiSgr", "LinkSites"]
 ESC = "\x1b"
 
@@ -142,7 +154,7 @@ def corr_hook(ctx, rep, mdl):
             txt, links, ok = scan_links(b)
             want = unhx(r.split()[2])
             if txt != want or not ok:
-                rep.violation("osc8:not-transparent", "format_osc8_hyperlink is not transparent / balanced",
+                report(rep, "osc8:not-transparent", "format_osc8_hyperlink is not transparent / balanced",
                               dict(kind="hook", request=r, got=i))
     # (b) file links and (d) sites, per configuration
     for _ in range(ctx.n(24, 400)):
@@ -177,7 +189,7 @@ def corr_hook(ctx, rep, mdl):
             if cwd is not None and a != "-":
                 want = os.path.normpath(os.path.join(cwd, f))
                 if unhx(a).decode() != want:
-                    rep.violation("absolute-path:not-cwd-joined", "absolute_path is not cwd/path normalised",
+                    report(rep, "absolute-path:not-cwd-joined", "absolute_path is not cwd/path normalised",
                                   dict(kind="hook", file=f, got=unhx(a).decode(), want=want))
         sreqs = []
         for f in files:
@@ -212,13 +224,13 @@ def corr_hook(ctx, rep, mdl):
                 continue
             if a == "ok none" or b == "ok none":
                 if a != b:
-                    rep.violation("site:" + kind + ":none-differs", "site result differs in kind", dict(kind="hook", request=r, on=a, off=b))
+                    report(rep, "site:" + kind + ":none-differs", "site result differs in kind", dict(kind="hook", request=r, on=a, off=b))
                 continue
             ab, bb = unhx(a[3:]) if len(a) > 3 else b"", unhx(b[3:]) if len(b) > 3 else b""
             # direct oracle: transparency and balance of the site's result
             txt, links, ok = scan_links(ab)
             if txt != bb or not ok:
-                rep.violation("site:" + kind + ":not-transparent",
+                report(rep, "site:" + kind + ":not-transparent",
                               "a call site's result with links is not its result without links plus OSC 8 strings",
                               dict(kind="hook", fmt=fmt, request=r, on=a, off=b))
             if mdl is None:
@@ -287,11 +299,11 @@ def corr_hook(ctx, rep, mdl):
             if b is not None:
                 txt, links, ok = scan_links(b)
                 if txt != l.encode() or not ok:
-                    rep.violation("commit-line:not-transparent", "commit line with links is not the line plus OSC 8 strings",
+                    report(rep, "commit-line:not-transparent", "commit line with links is not the line plus OSC 8 strings",
                                   dict(kind="hook", fmt=cfmt, line=l, got=i))
                 for url, text in links:
                     if url.decode("utf-8", "replace") != cfmt.replace("{commit}", text.decode("utf-8", "replace")):
-                        rep.violation("commit-line:wrong-target", "a commit link does not carry the hash it wraps",
+                        report(rep, "commit-line:wrong-target", "a commit link does not carry the hash it wraps",
                                       dict(kind="hook", fmt=cfmt, line=l, url=url.decode("utf-8", "replace"), text=text.decode("utf-8", "replace")))
     # (f) absolute_path case analysis: cwd / GIT_PREFIX / --relative-paths / calling process
     base = os.path.join(BUILD, "c19-cwd")
@@ -415,24 +427,24 @@ def binary_case(ctx, rep, case):
         rep.count("binary:baseline-failed:" + (re.findall(rb"panicked at ([^:]+:\d+)", e1) or [b"?"])[0].decode())
         return
     if rc2 != 0:
-        rep.violation("binary:exit-status", f"delta exit status {rc2} with --hyperlinks (0 without)",
+        report(rep, "binary:exit-status", f"delta exit status {rc2} with --hyperlinks (0 without)",
                       dict(kind="binary", stderr=e2[:600].decode("utf-8", "replace"), **case))
         return
     host = socket.gethostname()
     want_abs = {os.path.normpath(os.path.join(root, f)) for f in files}
     l1, l2 = o1.split(b"\n"), o2.split(b"\n")
     if len(l1) != len(l2):
-        rep.violation("not-transparent:line-count", "number of output lines differs with --hyperlinks", dict(kind="binary", **case))
+        report(rep, "not-transparent:line-count", "number of output lines differs with --hyperlinks", dict(kind="binary", **case))
         return
     current = None
     for i, (a, b) in enumerate(zip(l1, l2)):
         txt, links, ok = scan_links(b)
         if txt != a:
-            rep.violation("not-transparent:" + site_of(a), "output with hyperlinks, OSC 8 strings removed, differs from the output without",
+            report(rep, "not-transparent:" + site_of(a), "output with hyperlinks, OSC 8 strings removed, differs from the output without",
                           dict(kind="binary", row=i, without=repr(a), with_=repr(b), **case))
             return
         if not ok:
-            rep.violation("unbalanced:" + site_of(a), "a hyperlink is not opened and closed on the same line",
+            report(rep, "unbalanced:" + site_of(a), "a hyperlink is not opened and closed on the same line",
                           dict(kind="binary", row=i, with_=repr(b), **case))
             return
         for url, text in links:
@@ -443,14 +455,14 @@ def binary_case(ctx, rep, case):
             if not case.get("invertible"):
                 continue
             if inv is None:
-                rep.violation("wrong-target:shape", "a link URL does not have the shape of the configured format",
+                report(rep, "wrong-target:shape", "a link URL does not have the shape of the configured format",
                               dict(kind="binary", row=i, url=u, text=t, **case))
                 return
             path, line = inv
             if path not in want_abs:
                 stat = re.match(r"\s*\S.*\|\s+\d+ ", visible(txt)) is not None
                 modeline = "(mode " in visible(txt)
-                rep.violation("wrong-target:diff-stat-relative-path" if stat and "--relative-paths" in mode else
+                report(rep, "wrong-target:diff-stat-relative-path" if stat and "--relative-paths" in mode else
                               "wrong-target:mode-change-relative-path" if modeline and "--relative-paths" in mode else
                               "wrong-target:path", "a file link does not carry the absolute path of a file of the input",
                               dict(kind="binary", row=i, url=u, text=t, want=sorted(want_abs), **case))
@@ -461,12 +473,12 @@ def binary_case(ctx, rep, case):
             if named:
                 current = os.path.normpath(os.path.join(root, max(named, key=len)))
                 if path != current and not any(path == os.path.normpath(os.path.join(root, f)) for f in named):
-                    rep.violation("wrong-target:other-file", "a file link points at another file than the one it shows",
+                    report(rep, "wrong-target:other-file", "a file link points at another file than the one it shows",
                                   dict(kind="binary", row=i, url=u, text=t, **case))
                     return
                 current = path
             elif current is not None and path != current and not case.get("multi_sided"):
-                rep.violation("wrong-target:section", "a line-number link points at another file than its section's",
+                report(rep, "wrong-target:section", "a line-number link points at another file than its section's",
                               dict(kind="binary", row=i, url=u, text=t, want=current, **case))
                 return
             if line is not None:
@@ -475,7 +487,7 @@ def binary_case(ctx, rep, case):
                 if line != shown and not (line == "" and not nums):
                     if not nums and line != "0":
                         continue  # no number displayed in the link text (file-only header): the hunk's line
-                    rep.violation("wrong-target:line-not-displayed:0" if not nums else "wrong-target:line", "the line number in the link differs from the number displayed",
+                    report(rep, "wrong-target:line-not-displayed:0" if not nums else "wrong-target:line", "the line number in the link differs from the number displayed",
                                   dict(kind="binary", row=i, url=u, text=t, line=line, shown=shown, **case))
                     return
 
@@ -550,17 +562,17 @@ def pty_cases(ctx, rep):
         rep.case(key=("pty", tuple(lines), cfmt), nontrivial=n > 0, sample=dict(op="pty raw commit lines", lines=lines, fmt=cfmt, links=n))
         rep.count("pty:links=%d" % min(n // 2, 9))
         if rc1 != 0 or rc2 != 0:
-            rep.violation("binary:exit-status", f"delta exit status {rc1}/{rc2} (pty)", dict(kind="pty", lines=lines))
+            report(rep, "binary:exit-status", f"delta exit status {rc1}/{rc2} (pty)", dict(kind="pty", lines=lines))
             continue
         for a, b in zip(o1.split(b"\n"), o2.split(b"\n")):
             txt, links, ok = scan_links(b)
             if txt != a or not ok:
-                rep.violation("not-transparent:raw-line", "raw line with commit links (tty) is not the line plus balanced OSC 8 strings",
+                report(rep, "not-transparent:raw-line", "raw line with commit links (tty) is not the line plus balanced OSC 8 strings",
                               dict(kind="pty", lines=lines, fmt=cfmt, without=repr(a), with_=repr(b)))
                 break
             for url, text in links:
                 if url.decode() != cfmt.replace("{commit}", text.decode()):
-                    rep.violation("wrong-target:commit", "a commit link (tty) does not carry the hash it wraps",
+                    report(rep, "wrong-target:commit", "a commit link (tty) does not carry the hash it wraps",
                                   dict(kind="pty", lines=lines, fmt=cfmt, url=url.decode(), text=text.decode()))
                     break
 
